@@ -35,9 +35,13 @@ NOT_UNDER_CONTRACT = (
 
 def norm_err(e: str) -> str:
     e = re.sub(r"b'[^']*'|b\"[^\"]*\"", "<bytes>", e)
+    tail = ""
+    m = re.search(r"\{[^}]*\}$", e)
+    if m:
+        tail, e = m.group(0), e[: m.start()]
     e = re.sub(r"\[-?\d+,-?\d+\)", "[a,b)", e)
     e = re.sub(r"\d+", "N", e)
-    return e[:110]
+    return e[:110] + tail
 
 
 def bounded_decoder_raises(tier, seed):
@@ -109,3 +113,48 @@ def replay(case):
         errs, _ = fuzz.scan_total_errors(bytes.fromhex(case["scan"]), case.get("depth"))
         return (not errs, "; ".join(errs) or "scan and all views complete")
     return True, "unknown case kind"
+
+
+def bounded_scan_wf(tier, seed):
+    """C03 on real scans: default registry over the corpus (plus inputs with repeated blobs), the result is a well-formed tree."""
+    from props import fuzz
+    from props.engine_rt import check_wf
+
+    corp = fuzz.corpus(tier, seed)
+    extra = []
+    for name, data in corp[:: max(1, len(corp) // 150)]:
+        extra.append(("twice", data + b" \n " + data))
+    urls = [b"http://example.com/a?x=1#f http://other.org/b", b"http://example.com/page#section?x=1", b"see http://a.com/#/route?id=7 and c:\\temp\\..\\x\\file.exe",
+            b"c:\\a\\.\\b\\..\\prog.exe \\\\host.com\\share\\..\\lib.dll", b"QUJDREVGR0hJSktMTU5PUFFSU1RVVldYWVo= QUJDREVGR0hJSktMTU5PUFFSU1RVVldYWVo="]
+    extra += [("url", u) for u in urls]
+    n, failures, seen = 0, [], set()
+    for name, data in corp + extra:
+        n += 1
+        errs, tree = fuzz.scan_total_errors(data)
+        if tree is None:
+            continue
+        for e in check_wf(tree, data):
+            key = "scan-wf: " + norm_err(e)
+            if key in seen:
+                continue
+            seen.add(key)
+            failures.append({"id": key, "function": "multidecoder.multidecoder.Multidecoder.scan", "obligation": "bounded/C03-tree", "case": {"scan_wf": data.hex()}, "observed": e})
+    return {"evaluations": n, "distinct_nontrivial": len({d for _, d in corp + extra}), "scope": "default registry on the corpus, on self-concatenations of a sample of it and on hand-written URL / path inputs",
+            "failures": failures, "samples": [{"scan_wf": extra[0][1].hex()}]}
+
+
+_replay0 = replay
+
+
+def replay(case):  # noqa: F811
+    if "scan_wf" in case:
+        from props import fuzz
+        from props.engine_rt import check_wf
+
+        data = bytes.fromhex(case["scan_wf"])
+        errs, tree = fuzz.scan_total_errors(data)
+        if tree is None:
+            return False, "; ".join(errs)
+        e = check_wf(tree, data)
+        return (not e, "; ".join(e) or "well-formed tree")
+    return _replay0(case)
